@@ -14,6 +14,7 @@ def first_half(P, obj, x):
     parameters, evaluation points)."""
     I = P.interp
     n_before = len(P.calls)
+    P.set_point(x)
     (res, fxi) = I.getattr(obj, '_derivative')(x, (), {})
     rich = obj.attrs.get('richardson')
     rp = tuple((k, repr(rich.attrs.get(k))) for k in ('step_ratio', 'step', 'order', 'num_terms')) if rich is not None else None
@@ -105,6 +106,42 @@ def setter_scenarios(cls='Derivative', dim=None, tier='quick'):
         out.append(Scenario('%s(order=%d) ; call ; order=%d ; call' % (cls, o1, o2), h, f, 'order setter'))
     h, f = mk('central', n0, 2, [('method', 'forward'), ('method', 'central')], ('central', n0, 2))
     out.append(Scenario('%s(central) ; call ; method=forward ; method=central ; call' % cls, h, f, 'method restore'))
+    return out
+
+
+def other_point_scenarios(cls='Derivative', dim=None):
+    """The same object is first called at another point y, then at x."""
+    out = []
+
+    def mk(method, n, gen_kind):
+        def gen_of(P):
+            if gen_kind == 'sym':
+                return P.sym_generator('Min', num_extrap=1)
+            if gen_kind == 'default':
+                return None
+            return P.interp.get_global('step_generators', gen_kind)()
+
+        def history(P):
+            obj, x = P.build(cls, method, None if cls == 'Hessian' else 2, n=n, step=gen_of(P), dim=dim)
+            if dim is None:
+                y = Poly.sym('y')
+            else:
+                y = Arr((dim,), [Poly.sym('y%d' % k) for k in range(dim)])
+            P.set_point(y)
+            P.interp.getattr(obj, '_derivative')(y, (), {})
+            return obj, x
+
+        def fresh(P):
+            return P.build(cls, method, None if cls == 'Hessian' else 2, n=n, step=gen_of(P), dim=dim)
+        return history, fresh
+    n0 = 1 if cls == 'Derivative' else None
+    combos = [('central', n0, 'sym'), ('forward', n0, 'default'), ('complex', n0, 'default'), ('central', n0, 'MinStepGenerator'),
+              ('backward', n0, 'MaxStepGenerator')]
+    if cls == 'Derivative':
+        combos += [('central', 2, 'default'), ('complex', 3, 'MinStepGenerator')]
+    for method, n, gk in combos:
+        h, f = mk(method, n, gk)
+        out.append(Scenario('%s(%s, n=%s, steps=%s) ; call(y) ; call(x)' % (cls, method, n, gk), h, f, 'other point'))
     return out
 
 
